@@ -387,7 +387,11 @@ func rC14Completion(w *World, r *Report) {
 		}
 	}
 	if hdr == nil {
-		ru.Bad("skipParents/loop", w.Pos(sp.Pos()), "does not range over all parents of the vertex")
+		if why := skipParentsWorklist(sp, st["runSkip"]); why == "" {
+			ru.OK("skipParents/mark-and-recurse", w.Pos(sp.Pos()), "work list: every parent of every dequeued vertex is marked runSkip and queued (once)")
+		} else {
+			ru.Bad("skipParents/loop", w.Pos(sp.Pos()), "does not range over all parents of the vertex"+why)
+		}
 		return
 	}
 	elem := rangeElem(hdr)
@@ -417,6 +421,227 @@ func rC14Completion(w *World, r *Report) {
 		}
 	}
 	ru.Check(ok1 && ok2, "skipParents/mark-and-recurse", w.Pos(sp.Pos()), "every parent: status = runSkip; skipParents(parent)", "skip propagation does not reach every transitive dependent")
+}
+
+// skipParentsWorklist recognises the iterative form of skipParents: a queue that starts with the vertex, a loop that
+// takes queue[0] off the front while the queue is not empty, and inside it a range over the Parents of that element in
+// which every parent is marked runSkip and appended to the queue - unless a `seen` table says it was queued before -
+// and which is left only when the parents are exhausted. Returns "" when recognised, else the reason (prefixed).
+func skipParentsWorklist(sp *ssa.Function, runSkip int64) string {
+	if len(sp.Params) != 1 {
+		return " (unexpected signature)"
+	}
+	v := sp.Params[0]
+	for _, h2 := range loopHeaders(sp) {
+		coll := rangeCollectionOfHeader(h2)
+		if coll == nil {
+			continue
+		}
+		cur, ok := loadOfFieldNamed(coll, "Parents")
+		if !ok {
+			continue
+		}
+		ld, ok := cur.(*ssa.UnOp)
+		if !ok || ld.Op != token.MUL {
+			continue
+		}
+		ia, ok := ld.X.(*ssa.IndexAddr)
+		if !ok {
+			continue
+		}
+		if k, isC := constInt(ia.Index); !isC || k != 0 {
+			continue
+		}
+		q, ok := ia.X.(*ssa.Phi)
+		if !ok {
+			continue
+		}
+		h1 := q.Block()
+		outer, inner := naturalLoop(h1), naturalLoop(h2)
+		if !outer[h2] {
+			continue
+		}
+		// the outer loop runs while the queue is not empty and is left through its header only
+		iff, ok := h1.Instrs[len(h1.Instrs)-1].(*ssa.If)
+		if !ok {
+			return " (work list: the loop over the queue has no test)"
+		}
+		okTest := false
+		if bo, isB := iff.Cond.(*ssa.BinOp); isB {
+			if c, isL := lenOf(bo.X); isL && c == ssa.Value(q) {
+				if k, isC := constInt(bo.Y); isC && k == 0 && (bo.Op == token.GTR || bo.Op == token.NEQ) {
+					okTest = true
+				}
+			}
+		}
+		if !okTest {
+			return " (work list: the loop is not `for len(queue) > 0`)"
+		}
+		for b := range outer {
+			for _, sc := range b.Succs {
+				if !outer[sc] && b != h1 {
+					return " (work list: the loop over the queue is left before the queue is empty)"
+				}
+			}
+			for _, in := range b.Instrs {
+				if _, isRet := in.(*ssa.Return); isRet {
+					return " (work list: return inside the loop over the queue)"
+				}
+			}
+		}
+		// the queue starts with the vertex and loses exactly its first element per round
+		var rest *ssa.Slice
+		for _, in := range h1.Succs[0].Instrs {
+			if sl, isSl := in.(*ssa.Slice); isSl && sl.X == ssa.Value(q) && sl.High == nil {
+				if k, isC := constInt(sl.Low); isC && k == 1 {
+					rest = sl
+				}
+			}
+		}
+		if rest == nil {
+			for b := range outer {
+				for _, in := range b.Instrs {
+					if sl, isSl := in.(*ssa.Slice); isSl && sl.X == ssa.Value(q) && sl.High == nil {
+						if k, isC := constInt(sl.Low); isC && k == 1 {
+							rest = sl
+						}
+					}
+				}
+			}
+		}
+		if rest == nil {
+			return " (work list: the dequeued element is not removed with queue[1:])"
+		}
+		var chainRoot func(x ssa.Value, seen map[ssa.Value]bool) bool
+		chainRoot = func(x ssa.Value, seen map[ssa.Value]bool) bool {
+			if seen[x] {
+				return true
+			}
+			seen[x] = true
+			switch y := x.(type) {
+			case *ssa.Slice:
+				return y == rest
+			case *ssa.Phi:
+				for _, e := range y.Edges {
+					if !chainRoot(e, seen) {
+						return false
+					}
+				}
+				return true
+			case *ssa.Call:
+				if calleeName(y) == "builtin:append" {
+					return chainRoot(y.Call.Args[0], seen)
+				}
+			}
+			return false
+		}
+		for i, e := range q.Edges {
+			if h1.Dominates(h1.Preds[i]) {
+				if !chainRoot(e, map[ssa.Value]bool{}) {
+					return " (work list: the queue is rebuilt from something other than queue[1:] plus appended parents)"
+				}
+				continue
+			}
+			els, _, okE := elementsOf(e, map[ssa.Value]bool{})
+			has := false
+			for _, el := range els {
+				if el == ssa.Value(v) {
+					has = true
+				}
+			}
+			if !okE || !has {
+				return " (work list: the queue does not start with the vertex)"
+			}
+		}
+		// the range over the parents is left only when they are exhausted
+		for b := range inner {
+			for _, sc := range b.Succs {
+				if !inner[sc] && b != h2 {
+					return " (work list: the range over the parents is left early - the parents behind one that was seen are never marked)"
+				}
+			}
+		}
+		elem := rangeElem(h2)
+		isMark := func(in ssa.Instruction) bool {
+			base, f, val, ok := storeField(in)
+			k, _ := constInt(val)
+			return ok && f.Name() == "status" && base == elem && k == runSkip
+		}
+		isEnq := func(in ssa.Instruction) bool {
+			c, ok := in.(*ssa.Call)
+			if !ok || calleeName(c) != "builtin:append" || len(c.Call.Args) != 2 || !chainRoot(c.Call.Args[0], map[ssa.Value]bool{}) {
+				return false
+			}
+			els, _, _ := elementsOf(c.Call.Args[1], map[ssa.Value]bool{})
+			for _, el := range els {
+				if el == elem {
+					return true
+				}
+			}
+			return false
+		}
+		// edges taken because the `seen` table already holds the parent
+		seenEdge := func(term ssa.Instruction, k int) bool {
+			i2, ok := term.(*ssa.If)
+			if !ok {
+				return false
+			}
+			for _, f := range condFacts(i2.Cond, k == 0, i2) {
+				if f.Op != token.ILLEGAL || !f.Truth {
+					continue
+				}
+				x := f.X
+				if ex, isEx := x.(*ssa.Extract); isEx {
+					x = ex.Tuple
+				}
+				if lk, isLk := x.(*ssa.Lookup); isLk {
+					if _, isMap := lk.X.Type().Underlying().(*types.Map); isMap {
+						if b, okID := loadOfFieldNamed(lk.Index, "ID"); okID && b == elem || lk.Index == elem {
+							return true
+						}
+					}
+				}
+			}
+			return false
+		}
+		g := buildIG(sp)
+		isHead := func(in ssa.Instruction) bool { return in.Block() == h2 && in == h2.Instrs[0] }
+		for _, via := range []func(ssa.Instruction) bool{isMark, isEnq} {
+			reached := g.reachFromE(g.edgeStart(h2, 0), via, func(term ssa.Instruction, k int) bool { return !seenEdge(term, k) })
+			for i, sn := range reached {
+				if sn && isHead(g.instrs[i]) {
+					return " (work list: a parent that was not seen before can be passed over without being marked runSkip and queued)"
+				}
+			}
+		}
+		// the table only ever records the vertex itself and parents that are being marked
+		bad := ""
+		eachInstr(sp, func(in ssa.Instruction) {
+			mu, ok := in.(*ssa.MapUpdate)
+			if !ok {
+				return
+			}
+			if inner[mu.Block()] {
+				okK := mu.Key == elem
+				if b, okID := loadOfFieldNamed(mu.Key, "ID"); okID && b == elem {
+					okK = true
+				}
+				if !okK {
+					bad = " (work list: the `seen` table records something other than the parent at hand)"
+				}
+				return
+			}
+			okK := mu.Key == ssa.Value(v)
+			if b, okID := loadOfFieldNamed(mu.Key, "ID"); okID && b == ssa.Value(v) {
+				okK = true
+			}
+			if !okK {
+				bad = " (work list: the `seen` table is pre-filled with something other than the vertex itself)"
+			}
+		})
+		return bad
+	}
+	return " (nor is it a work list that ranges over the parents of every dequeued vertex)"
 }
 
 func rC14Branches(w *World, r *Report) {
